@@ -4,7 +4,10 @@ import (
 	"fmt"
 	"reflect"
 	"sort"
+	"unsafe"
 )
+
+func unsafePointer(p *byte) unsafe.Pointer { return unsafe.Pointer(p) }
 
 // Recv replaces `<-ch` in instrumented code.
 //
@@ -168,3 +171,13 @@ func canonValue(b []byte, v reflect.Value, depth int) []byte {
 	}
 	return append(b, '?')
 }
+
+// racePub is the address harness code uses to order hand-offs of objects
+// between its own tasks for the race detector (a real program would pass them
+// through a channel or under a lock).
+var racePub byte
+
+// RacePublish / RaceObserve give the race detector the happens-before edge of
+// a harness-level hand-off (no effect without -race).
+func RacePublish() { RaceReleaseMerge(unsafePointer(&racePub)) }
+func RaceObserve() { RaceAcquire(unsafePointer(&racePub)) }
